@@ -536,6 +536,471 @@ direct_all(hx_rng *g, int reps)
         }
 }
 
+/* ---------- n-buffer direct calls in structured length regimes, and the direct calls direct_all() leaves out ---------- */
+/* lengths of one n-buffer group: regime 0 random, 1 all equal, 2 shortest is a whole number of `unit` bytes and the rest
+ * are longer (the common part ends exactly on a chunk boundary of the multi-buffer kernels), 3 ascending by one unit */
+static void
+nbuf_lens(hx_rng *g, int regime, int n, uint32_t unit, uint32_t maxlen, uint32_t *len)
+{
+        const uint32_t base = unit * (1 + hx_below(g, 6));
+        const int shortest = hx_below(g, n);
+        for (int i = 0; i < n; i++) {
+                uint32_t v;
+                switch (regime) {
+                case 1:
+                        v = base + 3;
+                        break;
+                case 2:
+                        v = i == shortest ? base : base + 1 + hx_below(g, 5 * unit);
+                        break;
+                case 3:
+                        v = base + (uint32_t) i * unit;
+                        break;
+                default:
+                        v = 1 + hx_below(g, maxlen < 700 ? maxlen : 700);
+                }
+                len[i] = v > maxlen ? maxlen : v;
+        }
+}
+
+static void
+nbuf_all(hx_rng *g, int reps)
+{
+        static const int ns[] = { 1, 2, 3, 4, 5, 7, 8, 9, 15, 16, 17, 24, 31 };
+        static const uint32_t units[] = { 4, 8, 16, 32, 64 };
+        hx_spec sp;
+        for (int it = 0; it < reps * 13; it++) {
+                int sig = sigsetjmp(hx_fault_jmp, 1);
+                if (sig != 0) {
+                        alarm(0);
+                        guard_fail("nbuf", sig);
+                        ga_reset();
+                        continue;
+                }
+                alarm(60);
+                const int n = ns[it % 13], regime = (it / 13) % 4;
+                const uint32_t unit = units[(it / 52 + it) % 5];
+                uint32_t want[32];
+                hx_job zj[32];
+                /* --- ZUC-EIA3 n buffers: one call against one job per buffer and the 1-buffer call --- */
+                {
+                        const void *keys[32], *ivs[32], *srcs[32];
+                        uint32_t bits[32], tags[32], *tagp[32];
+                        int st = IMB_STATUS_COMPLETED, same = 1;
+                        nbuf_lens(g, regime, n, unit, 2000, want);
+                        for (int i = 0; i < n; i++) {
+                                hx_force_len = want[i];
+                                hx_spec_from_kind("+ZUCEIA3", g, &sp);
+                                hx_force_len = -1;
+                                if (regime)
+                                        sp.bitadj = 0;
+                                if (job_result("+ZUCEIA3", &sp, &zj[i]) != IMB_STATUS_COMPLETED)
+                                        st = -1;
+                                keys[i] = zj[i].tmpl.u.ZUC_EIA3._key;
+                                ivs[i] = zj[i].tmpl.u.ZUC_EIA3._iv;
+                                srcs[i] = zj[i].src_snapshot + zj[i].sp.hoff;
+                                bits[i] = (uint32_t) zj[i].tmpl.msg_len_to_hash_in_bits;
+                                tags[i] = 0;
+                                tagp[i] = &tags[i];
+                        }
+                        IMB_ZUC_EIA3_N_BUFFER(M, keys, ivs, srcs, bits, tagp, (uint32_t) n);
+                        for (int i = 0; i < n; i++) {
+                                uint32_t one = 0;
+                                IMB_ZUC_EIA3_1_BUFFER(M, zj[i].tmpl.u.ZUC_EIA3._key, zj[i].tmpl.u.ZUC_EIA3._iv,
+                                                      zj[i].src_snapshot + zj[i].sp.hoff, bits[i], &one);
+                                if (memcmp(&tags[i], zj[i].tag, 4) != 0 || one != tags[i]) {
+                                        same = 0;
+                                        if (getenv("NBUF_DEBUG")) {
+                                                fprintf(stderr, "eia3_n mismatch n=%d regime=%d i=%d bits=%u nbuf=%08x job=%02x%02x%02x%02x one=%08x | all bits:", n, regime, i, bits[i], tags[i], zj[i].tag[0], zj[i].tag[1], zj[i].tag[2], zj[i].tag[3], one);
+                                                for (int q = 0; q < n; q++)
+                                                        fprintf(stderr, " %u", bits[q]);
+                                                fprintf(stderr, "\n");
+                                        }
+                                }
+                                hx_job_free(&zj[i]);
+                        }
+                        log_direct("zuc_eia3_n", "+ZUCEIA3", n, same, st);
+                }
+                /* --- ZUC-EEA3 n buffers --- */
+                {
+                        const void *keys[32], *ivs[32], *srcs[32];
+                        void *dsts[32];
+                        uint32_t lens[32];
+                        int st = IMB_STATUS_COMPLETED, same = 1;
+                        nbuf_lens(g, regime, n, unit, 2000, want);
+                        for (int i = 0; i < n; i++) {
+                                hx_force_len = want[i];
+                                hx_spec_from_kind("ZUC128E", g, &sp);
+                                hx_force_len = -1;
+                                sp.coff = 0;
+                                sp.inplace = 0;
+                                if (job_result("ZUC128E", &sp, &zj[i]) != IMB_STATUS_COMPLETED)
+                                        st = -1;
+                                keys[i] = zj[i].tmpl.enc_keys;
+                                ivs[i] = zj[i].iv;
+                                srcs[i] = zj[i].src_snapshot;
+                                lens[i] = zj[i].sp.len;
+                                dsts[i] = calloc(1, lens[i] + 64);
+                        }
+                        void *dkeep[32];
+                        uint32_t lkeep[32];
+                        memcpy(dkeep, dsts, sizeof(dkeep));
+                        memcpy(lkeep, lens, sizeof(lkeep));
+                        if (n == 4 && (it & 1))
+                                IMB_ZUC_EEA3_4_BUFFER(M, keys, ivs, srcs, dsts, lens);
+                        else
+                                IMB_ZUC_EEA3_N_BUFFER(M, keys, ivs, srcs, dsts, lens, (uint32_t) n);
+                        for (int i = 0; i < n; i++) {
+                                if (memcmp(dkeep[i], zj[i].dst, lkeep[i]) != 0)
+                                        same = 0;
+                                free(dkeep[i]);
+                                hx_job_free(&zj[i]);
+                        }
+                        log_direct("zuc_eea3_n_struct", "ZUC128E", n, same, st);
+                }
+                /* --- SNOW3G F8: 2 / 4 / 8 / n buffers under one key, 8 / n buffers with a key each --- */
+                if (n <= 16) {
+                        const void *ivs[32], *srcs[32], *keys[32];
+                        void *dsts[32], *dmk[32];
+                        uint32_t lens[32];
+                        int st = IMB_STATUS_COMPLETED, same = 1, samemk = 1;
+                        nbuf_lens(g, regime, n, unit, 2000, want);
+                        for (int i = 0; i < n; i++) {
+                                hx_force_len = want[i];
+                                hx_spec_from_kind("SNOW3GE", g, &sp);
+                                hx_force_len = -1;
+                                sp.bitadj = 0;
+                                sp.coff = 0;
+                                sp.inplace = 0;
+                                if (job_result("SNOW3GE", &sp, &zj[i]) != IMB_STATUS_COMPLETED)
+                                        st = -1;
+                                ivs[i] = zj[i].iv;
+                                srcs[i] = zj[i].src_snapshot;
+                                keys[i] = zj[i].tmpl.enc_keys;
+                                lens[i] = zj[i].sp.len;
+                                dsts[i] = calloc(1, lens[i] + 64);
+                                dmk[i] = calloc(1, lens[i] + 64);
+                        }
+                        const void *k0 = zj[0].tmpl.enc_keys;
+                        const void *ivs2[32], *srcs2[32], *keys2[32];
+                        void *dsts2[32];
+                        uint32_t lens2[32];
+                        memcpy(ivs2, ivs, sizeof(ivs2));
+                        memcpy(srcs2, srcs, sizeof(srcs2));
+                        memcpy(dsts2, dsts, sizeof(dsts2));
+                        memcpy(lens2, lens, sizeof(lens2));
+                        const char *fn = "snow3g_f8_n_struct";
+                        if (n == 2) {
+                                fn = "snow3g_f8_2";
+                                IMB_SNOW3G_F8_2_BUFFER(M, k0, ivs[0], ivs[1], srcs[0], dsts[0], lens[0], srcs[1], dsts[1], lens[1]);
+                        } else if (n == 4) {
+                                fn = "snow3g_f8_4";
+                                IMB_SNOW3G_F8_4_BUFFER(M, k0, ivs[0], ivs[1], ivs[2], ivs[3], srcs[0], dsts[0], lens[0], srcs[1], dsts[1],
+                                                       lens[1], srcs[2], dsts[2], lens[2], srcs[3], dsts[3], lens[3]);
+                        } else if (n == 8) {
+                                fn = "snow3g_f8_8";
+                                IMB_SNOW3G_F8_8_BUFFER(M, k0, ivs[0], ivs[1], ivs[2], ivs[3], ivs[4], ivs[5], ivs[6], ivs[7], srcs[0],
+                                                       dsts[0], lens[0], srcs[1], dsts[1], lens[1], srcs[2], dsts[2], lens[2], srcs[3],
+                                                       dsts[3], lens[3], srcs[4], dsts[4], lens[4], srcs[5], dsts[5], lens[5], srcs[6],
+                                                       dsts[6], lens[6], srcs[7], dsts[7], lens[7]);
+                        } else
+                                IMB_SNOW3G_F8_N_BUFFER(M, k0, ivs2, srcs2, dsts2, lens2, (uint32_t) n);
+                        for (int i = 0; i < n; i++) {
+                                uint8_t *one = malloc(lens[i] + 64);
+                                IMB_SNOW3G_F8_1_BUFFER(M, k0, ivs[i], srcs[i], one, lens[i]);
+                                if (memcmp(one, dsts[i], lens[i]) != 0)
+                                        same = 0;
+                                free(one);
+                        }
+                        if (memcmp(dsts[0], zj[0].dst, lens[0]) != 0)
+                                same = 0;
+                        log_direct(fn, "SNOW3GE", n, same, st);
+                        /* every buffer under its own key: equals the job of that buffer */
+                        memcpy(ivs2, ivs, sizeof(ivs2));
+                        memcpy(srcs2, srcs, sizeof(srcs2));
+                        memcpy(dsts2, dmk, sizeof(dsts2));
+                        memcpy(lens2, lens, sizeof(lens2));
+                        memcpy(keys2, keys, sizeof(keys2));
+                        if (n == 8)
+                                IMB_SNOW3G_F8_8_BUFFER_MULTIKEY(M, (const snow3g_key_schedule_t *const *) keys2, ivs2, srcs2, dsts2, lens2);
+                        else
+                                IMB_SNOW3G_F8_N_BUFFER_MULTIKEY(M, (const snow3g_key_schedule_t *const *) keys2, ivs2, srcs2, dsts2, lens2,
+                                                                (uint32_t) n);
+                        for (int i = 0; i < n; i++) {
+                                if (memcmp(dmk[i], zj[i].dst, lens[i]) != 0)
+                                        samemk = 0;
+                                free(dsts[i]);
+                                free(dmk[i]);
+                                hx_job_free(&zj[i]);
+                        }
+                        log_direct(n == 8 ? "snow3g_f8_8_multikey" : "snow3g_f8_n_multikey", "SNOW3GE", n, samemk, st);
+                }
+                /* --- KASUMI F8: 2 buffers (own lengths), 3 / 4 buffers (one length), n buffers --- */
+                if (n <= 16) {
+                        uint64_t ivs[32];
+                        const void *srcs[32];
+                        void *dsts[32];
+                        uint32_t lens[32];
+                        int st = IMB_STATUS_COMPLETED, same = 1;
+                        nbuf_lens(g, (n == 3 || n == 4) ? 1 : regime, n, unit, 2000, want);
+                        for (int i = 0; i < n; i++) {
+                                hx_force_len = want[i];
+                                hx_spec_from_kind("KASUMIE", g, &sp);
+                                hx_force_len = -1;
+                                sp.bitadj = 0;
+                                sp.coff = 0;
+                                sp.inplace = 0;
+                                if (job_result("KASUMIE", &sp, &zj[i]) != IMB_STATUS_COMPLETED)
+                                        st = -1;
+                                memcpy(&ivs[i], zj[i].iv, 8);
+                                srcs[i] = zj[i].src_snapshot;
+                                lens[i] = zj[i].sp.len;
+                                dsts[i] = calloc(1, lens[i] + 64);
+                        }
+                        const void *k0 = zj[0].tmpl.enc_keys;
+                        uint64_t ivs2[32];
+                        const void *srcs2[32];
+                        void *dsts2[32];
+                        uint32_t lens2[32];
+                        memcpy(ivs2, ivs, sizeof(ivs2));
+                        memcpy(srcs2, srcs, sizeof(srcs2));
+                        memcpy(dsts2, dsts, sizeof(dsts2));
+                        memcpy(lens2, lens, sizeof(lens2));
+                        const char *fn = "kasumi_f8_n_struct";
+                        if (n == 1) {
+                                fn = "kasumi_f8_1_bit";
+                                IMB_KASUMI_F8_1_BUFFER_BIT(M, k0, ivs[0], srcs[0], dsts[0], lens[0] * 8, 0);
+                        } else if (n == 2) {
+                                fn = "kasumi_f8_2";
+                                IMB_KASUMI_F8_2_BUFFER(M, k0, ivs[0], ivs[1], srcs[0], dsts[0], lens[0], srcs[1], dsts[1], lens[1]);
+                        } else if (n == 3 && lens[0] == lens[1] && lens[1] == lens[2]) {
+                                fn = "kasumi_f8_3";
+                                IMB_KASUMI_F8_3_BUFFER(M, k0, ivs[0], ivs[1], ivs[2], srcs[0], dsts[0], srcs[1], dsts[1], srcs[2], dsts[2],
+                                                       lens[0]);
+                        } else if (n == 4 && lens[0] == lens[1] && lens[1] == lens[2] && lens[2] == lens[3]) {
+                                fn = "kasumi_f8_4";
+                                IMB_KASUMI_F8_4_BUFFER(M, k0, ivs[0], ivs[1], ivs[2], ivs[3], srcs[0], dsts[0], srcs[1], dsts[1], srcs[2],
+                                                       dsts[2], srcs[3], dsts[3], lens[0]);
+                        } else
+                                IMB_KASUMI_F8_N_BUFFER(M, k0, ivs2, srcs2, dsts2, lens2, (uint32_t) n);
+                        for (int i = 0; i < n; i++) {
+                                uint8_t *one = malloc(lens[i] + 64);
+                                IMB_KASUMI_F8_1_BUFFER(M, k0, ivs[i], srcs[i], one, lens[i]);
+                                if (memcmp(one, dsts[i], lens[i]) != 0)
+                                        same = 0;
+                                free(one);
+                        }
+                        if (memcmp(dsts[0], zj[0].dst, lens[0]) != 0)
+                                same = 0;
+                        for (int i = 0; i < n; i++) {
+                                free(dsts[i]);
+                                hx_job_free(&zj[i]);
+                        }
+                        log_direct(fn, "KASUMIE", n, same, st);
+                }
+                /* --- SNOW3G F8 bit-length call with whole bytes = the job --- */
+                {
+                        hx_job j;
+                        hx_spec_from_kind("SNOW3GE", g, &sp);
+                        sp.coff = 0;
+                        sp.inplace = 0;
+                        int st = job_result("SNOW3GE", &sp, &j);
+                        uint8_t *out = calloc(1, sp.len + 64);
+                        IMB_SNOW3G_F8_1_BUFFER_BIT(M, j.tmpl.enc_keys, j.iv, j.src_snapshot, out, (uint32_t) j.tmpl.msg_len_to_cipher_in_bits, 0);
+                        const uint32_t nb = (uint32_t) j.tmpl.msg_len_to_cipher_in_bits / 8, rem = (uint32_t) j.tmpl.msg_len_to_cipher_in_bits % 8;
+                        int same = memcmp(out, j.dst, nb) == 0;
+                        if (rem && ((out[nb] ^ j.dst[nb]) & (uint8_t) (0xff << (8 - rem))))
+                                same = 0;
+                        log_direct("snow3g_f8_1_bit", "SNOW3GE", 1, same, st);
+                        free(out);
+                        hx_job_free(&j);
+                }
+                /* --- GMAC init / update / finalize in pieces = the GMAC job --- */
+                {
+                        static const char *gk[] = { "+GMAC128", "+GMAC192", "+GMAC256" };
+                        const int w = it % 3;
+                        hx_job j;
+                        hx_spec_from_kind(gk[w], g, &sp);
+                        int st = job_result(gk[w], &sp, &j);
+                        struct gcm_context_data ctx;
+                        uint8_t tag[16] = { 0 };
+                        const uint8_t *src = j.src_snapshot + sp.hoff;
+                        const uint64_t cut = sp.hlen ? hx_below(g, sp.hlen + 1) : 0;
+                        const struct gcm_key_data *key = j.tmpl.u.GMAC._key;
+                        if (w == 0) {
+                                IMB_AES128_GMAC_INIT(M, key, &ctx, j.tmpl.u.GMAC._iv, j.tmpl.u.GMAC.iv_len_in_bytes);
+                                IMB_AES128_GMAC_UPDATE(M, key, &ctx, src, cut);
+                                IMB_AES128_GMAC_UPDATE(M, key, &ctx, src + cut, sp.hlen - cut);
+                                IMB_AES128_GMAC_FINALIZE(M, key, &ctx, tag, sp.taglen);
+                        } else if (w == 1) {
+                                IMB_AES192_GMAC_INIT(M, key, &ctx, j.tmpl.u.GMAC._iv, j.tmpl.u.GMAC.iv_len_in_bytes);
+                                IMB_AES192_GMAC_UPDATE(M, key, &ctx, src, cut);
+                                IMB_AES192_GMAC_UPDATE(M, key, &ctx, src + cut, sp.hlen - cut);
+                                IMB_AES192_GMAC_FINALIZE(M, key, &ctx, tag, sp.taglen);
+                        } else {
+                                IMB_AES256_GMAC_INIT(M, key, &ctx, j.tmpl.u.GMAC._iv, j.tmpl.u.GMAC.iv_len_in_bytes);
+                                IMB_AES256_GMAC_UPDATE(M, key, &ctx, src, cut);
+                                IMB_AES256_GMAC_UPDATE(M, key, &ctx, src + cut, sp.hlen - cut);
+                                IMB_AES256_GMAC_FINALIZE(M, key, &ctx, tag, sp.taglen);
+                        }
+                        log_direct("gmac_stream", gk[w], 2, memcmp(tag, j.tag, sp.taglen) == 0, st);
+                        hx_job_free(&j);
+                }
+                /* --- AES-256-CFB one block --- */
+                {
+                        hx_job j;
+                        hx_force_len = 16;
+                        hx_spec_from_kind("CFB256E", g, &sp);
+                        hx_force_len = -1;
+                        int st = job_result("CFB256E", &sp, &j);
+                        uint8_t out[16];
+                        IMB_AES256_CFB_ONE(M, out, j.src_snapshot + sp.coff, j.iv, j.tmpl.enc_keys, 16);
+                        log_direct("cfb256_one", "CFB256E", 1, memcmp(out, j.dst, 16) == 0, st);
+                        hx_job_free(&j);
+                }
+                alarm(0);
+                ga_reset();
+        }
+}
+
+/* HEC of an XGEM header (ITU-T G.987.3 8.1.1.2 style): the last 13 bits are a BCH(63,12,2) remainder over the preceding
+ * bits (generator x^12+x^10+x^8+x^5+x^4+x^3+1) and one even-parity bit; bit-serial reference */
+static uint64_t
+hec_ref(uint64_t hdr_be_value, int width)
+{
+        const uint64_t data = hdr_be_value >> 13; /* width-13 bits */
+        uint32_t rem = 0;
+        for (int b = width - 13 - 1; b >= 0; b--) {
+                const uint32_t in = (uint32_t) ((data >> b) & 1);
+                const uint32_t top = ((rem >> 11) & 1) ^ in;
+                rem = (rem << 1) & 0xfff;
+                if (top)
+                        rem ^= 0x539; /* x^10+x^8+x^5+x^4+x^3+1 */
+        }
+        uint64_t v = (data << 13) | ((uint64_t) rem << 1);
+        v |= (uint64_t) (__builtin_popcountll(v) & 1);
+        return v;
+}
+
+static void
+hec_all(hx_rng *g, int reps)
+{
+        for (int it = 0; it < reps * 40; it++) {
+                uint8_t h8[8], h4[4];
+                uint64_t r = hx_rand(g);
+                if (it % 5 == 0)
+                        r &= hx_rand(g) & hx_rand(g); /* sparse headers */
+                memcpy(h8, &r, 8);
+                memcpy(h4, &r, 4);
+                uint64_t be8 = 0;
+                uint32_t be4 = 0;
+                for (int i = 0; i < 8; i++)
+                        be8 = (be8 << 8) | h8[i];
+                for (int i = 0; i < 4; i++)
+                        be4 = (be4 << 8) | h4[i];
+                const uint64_t want8 = hec_ref(be8, 64);
+                const uint32_t want4 = (uint32_t) hec_ref(be4, 32);
+                uint64_t got8 = IMB_HEC_64(M, h8);
+                uint32_t got4 = IMB_HEC_32(M, h4);
+                uint8_t w8[8], w4[4];
+                for (int i = 0; i < 8; i++)
+                        w8[i] = (uint8_t) (want8 >> (56 - 8 * i));
+                for (int i = 0; i < 4; i++)
+                        w4[i] = (uint8_t) (want4 >> (24 - 8 * i));
+                log_direct("hec_64", "HEC", 1, memcmp(&got8, w8, 8) == 0, IMB_STATUS_COMPLETED);
+                log_direct("hec_32", "HEC", 1, memcmp(&got4, w4, 4) == 0, IMB_STATUS_COMPLETED);
+        }
+        /* the PON encrypt job writes the same HEC into the XGEM header of its frame */
+        for (int it = 0; it < reps * 4; it++) {
+                hx_spec sp;
+                hx_job j;
+                hx_spec_from_kind("PONE", g, &sp);
+                int st = job_result("PONE", &sp, &j);
+                uint64_t got = IMB_HEC_64(M, j.src_snapshot + sp.hoff);
+                log_direct("hec_64_vs_pon_job", "PONE", 1, memcmp(&got, j.src + sp.hoff, 8) == 0, st);
+                hx_job_free(&j);
+                ga_reset();
+        }
+}
+
+/* one-block calls: the compression function from the initial state, against the low-level transforms of the reference */
+#include <openssl/sha.h>
+#include <openssl/md5.h>
+#pragma GCC diagnostic push
+#pragma GCC diagnostic ignored "-Wdeprecated-declarations"
+static void
+oneblock_all(hx_rng *g, int reps)
+{
+        for (int it = 0; it < reps * 6; it++) {
+                uint8_t blk[128];
+                for (int i = 0; i < 128; i += 8) {
+                        uint64_t r = hx_rand(g);
+                        memcpy(blk + i, &r, 8);
+                }
+                uint8_t out[64];
+                int same;
+                switch (it % 6) {
+                case 0: {
+                        SHA_CTX c;
+                        SHA1_Init(&c);
+                        SHA1_Transform(&c, blk);
+                        uint32_t w[5] = { c.h0, c.h1, c.h2, c.h3, c.h4 };
+                        IMB_SHA1_ONE_BLOCK(M, blk, out);
+                        same = memcmp(out, w, 20) == 0;
+                        log_direct("sha1_one_block", "+SHA1", 1, same, IMB_STATUS_COMPLETED);
+                        break;
+                }
+                case 1: {
+                        SHA256_CTX c;
+                        SHA224_Init(&c);
+                        SHA256_Transform(&c, blk);
+                        IMB_SHA224_ONE_BLOCK(M, blk, out);
+                        same = memcmp(out, c.h, 32) == 0;
+                        log_direct("sha224_one_block", "+SHA224", 1, same, IMB_STATUS_COMPLETED);
+                        break;
+                }
+                case 2: {
+                        SHA256_CTX c;
+                        SHA256_Init(&c);
+                        SHA256_Transform(&c, blk);
+                        IMB_SHA256_ONE_BLOCK(M, blk, out);
+                        same = memcmp(out, c.h, 32) == 0;
+                        log_direct("sha256_one_block", "+SHA256", 1, same, IMB_STATUS_COMPLETED);
+                        break;
+                }
+                case 3: {
+                        SHA512_CTX c;
+                        SHA384_Init(&c);
+                        SHA512_Transform(&c, blk);
+                        IMB_SHA384_ONE_BLOCK(M, blk, out);
+                        same = memcmp(out, c.h, 64) == 0;
+                        log_direct("sha384_one_block", "+SHA384", 1, same, IMB_STATUS_COMPLETED);
+                        break;
+                }
+                case 4: {
+                        SHA512_CTX c;
+                        SHA512_Init(&c);
+                        SHA512_Transform(&c, blk);
+                        IMB_SHA512_ONE_BLOCK(M, blk, out);
+                        same = memcmp(out, c.h, 64) == 0;
+                        log_direct("sha512_one_block", "+SHA512", 1, same, IMB_STATUS_COMPLETED);
+                        break;
+                }
+                default: {
+                        MD5_CTX c;
+                        MD5_Init(&c);
+                        MD5_Transform(&c, blk);
+                        uint32_t w[4] = { c.A, c.B, c.C, c.D };
+                        IMB_MD5_ONE_BLOCK(M, blk, out);
+                        same = memcmp(out, w, 16) == 0;
+                        log_direct("md5_one_block", "+HMACMD5", 1, same, IMB_STATUS_COMPLETED);
+                        break;
+                }
+                }
+        }
+}
+#pragma GCC diagnostic pop
+
 /* ---------- KF-2 probe: synchronous burst while an asynchronous job of that family is parked ---------- */
 static void
 mix_probe(hx_rng *g)
@@ -616,6 +1081,9 @@ drv_entry(int argc, char **argv)
                         sync_burst(burst_kinds[k], sizes[s], &g);
         direct_all(&g, reps);
         quic_all(&g, reps);
+        nbuf_all(&g, reps);
+        hec_all(&g, reps);
+        oneblock_all(&g, reps);
         mix_probe(&g);
         tr_begin("EntryDone");
         tr_int("items", nitems);
